@@ -185,7 +185,7 @@ def check_earliest(run, rule):
     EK = path_str(E)
     empty_both = f_and(f_not(("nonempty", ("this", "m_malformed_messages"))), f_not(("nonempty", ("this", "m_query_responses"))))
     for qn, sig0, vec, tfield in overloads:
-        f = facts.fn(qn, sig=[sig0, opt], rule=rule)
+        f = ir.normal_path(facts.fn(qn, sig=[sig0, opt], rule=rule))     # (a guard that restores the old value while unwinding is not an update)
         tag = "%s(%s)" % (short(qn).split("::")[-1], short(sig0).replace("const ", "").replace(" &", ""))
         env = Env(f["body"])
         order = {}
